@@ -30,6 +30,7 @@ import (
 	pubsub "github.com/libp2p/go-libp2p-pubsub"
 	"github.com/libp2p/go-libp2p/core/host"
 	"github.com/libp2p/go-libp2p/core/peer"
+	"github.com/multiformats/go-multiaddr"
 
 	"verifharness/fixture"
 	"verifharness/sched"
@@ -74,6 +75,19 @@ var (
 // the sender takes part in every Direct.
 var resendTopic bool
 
+// filterIPs: the receivers of the (H) sequences are created with
+// WithFilterIPs(true) and every direct announcement carries addresses that the
+// filter removes (loopback and private only), so that the filtering code takes
+// part in every Direct.
+var filterIPs bool
+
+func directAddrs() []multiaddr.Multiaddr {
+	if !filterIPs {
+		return nil
+	}
+	return []multiaddr.Multiaddr{multiaddr.StringCast("/ip4/127.0.0.1/tcp/3104/http"), multiaddr.StringCast("/ip4/10.1.2.3/tcp/3104/http")}
+}
+
 func newReceiver() *announce.Receiver {
 	r, _ := newReceiverCleanup()
 	return r
@@ -90,6 +104,9 @@ func newReceiverCleanup() (*announce.Receiver, func()) {
 		}
 		return p != denied
 	})}
+	if filterIPs {
+		opts = append(opts, announce.WithFilterIPs(true))
+	}
 	var h host.Host
 	cleanup := func() {}
 	if resendTopic {
@@ -141,11 +158,11 @@ func doOp(r *announce.Receiver, o op) string {
 	case opClose:
 		return res(r.Close())
 	case opDirect1:
-		return res(r.Direct(ctx, c1, peer.AddrInfo{ID: allowed}))
+		return res(r.Direct(ctx, c1, peer.AddrInfo{ID: allowed, Addrs: directAddrs()}))
 	case opDirect2:
-		return res(r.Direct(ctx, c2, peer.AddrInfo{ID: allowed}))
+		return res(r.Direct(ctx, c2, peer.AddrInfo{ID: allowed, Addrs: directAddrs()}))
 	case opDirectDenied:
-		return res(r.Direct(ctx, c1, peer.AddrInfo{ID: denied}))
+		return res(r.Direct(ctx, c1, peer.AddrInfo{ID: denied, Addrs: directAddrs()}))
 	case opNext:
 		a, err := r.Next(ctx)
 		if err != nil {
@@ -404,7 +421,7 @@ func runSequence(t *testing.T, r *vp.Recorder, seq []op) {
 					follow("Next (taking out what is queued)", q.String(), next)
 				}
 				follow("Direct(fresh CID)", "nil", func() string {
-					if err := rc.Direct(context.Background(), cFresh, peer.AddrInfo{ID: allowed}); err != nil {
+					if err := rc.Direct(context.Background(), cFresh, peer.AddrInfo{ID: allowed, Addrs: directAddrs()}); err != nil {
 						return "err:" + err.Error()
 					}
 					return "nil"
@@ -753,7 +770,7 @@ func pubsubScenario(extra []string) *sched.Scenario {
 
 func TestCheck(t *testing.T) {
 	r := vp.New("C16", "model_checking",
-		"(H) every sequence of <= N operations over {Close, Direct(c1), Direct(c2), Direct(c1) from a denied peer, Next, UncacheCid(c1)}, each operation started in its own goroutine in a synctest bubble and observed at quiescence as returned(value) / blocked, compared after every step with a reference model of the receiver (closed flag, one-slot queue, duplicate set, blocked callers), and the same one operation shallower with an allow filter that itself calls the receiver (UncacheCid of an unrelated CID) before answering, and the same at full depth with receivers that have a pubsub topic and republish every direct announcement (WithResend(true)); after every sequence that leaves the receiver open with nobody waiting, what is queued is taken out and a direct announcement of a fresh CID must go through (Direct returns, Next delivers it); (S) every set of 2 threads x 1-2 operations and 3 threads x 1 operation containing at least one Close (3 threads x <=2 operations in the thorough tier), all interleavings at the scheduling points of the instrumented announce package up to the preemption bound. states = distinct decision states / sequences; transitions = scheduling steps / operations; traces = executions of the real receiver.",
+		"(H) every sequence of <= N operations over {Close, Direct(c1), Direct(c2), Direct(c1) from a denied peer, Next, UncacheCid(c1)}, each operation started in its own goroutine in a synctest bubble and observed at quiescence as returned(value) / blocked, compared after every step with a reference model of the receiver (closed flag, one-slot queue, duplicate set, blocked callers), and the same one operation shallower with an allow filter that itself calls the receiver (UncacheCid of an unrelated CID) before answering, and the same at full depth with receivers that have a pubsub topic and republish every direct announcement (WithResend(true)), and once more with address filtering on (WithFilterIPs(true)) and direct announcements carrying only loopback and private addresses; after every sequence that leaves the receiver open with nobody waiting, what is queued is taken out and a direct announcement of a fresh CID must go through (Direct returns, Next delivers it); (S) every set of 2 threads x 1-2 operations and 3 threads x 1 operation containing at least one Close (3 threads x <=2 operations in the thorough tier), all interleavings at the scheduling points of the instrumented announce package up to the preemption bound. states = distinct decision states / sequences; transitions = scheduling steps / operations; traces = executions of the real receiver.",
 		"(H) and (S): receiver without pubsub (nil host); (P): the receiver with a gossipsub topic on one transport-less libp2p host, a thread publishing one announcement, so that the watcher goroutine takes part: publish || Close, optionally || UncacheCid / Next / a second Close / Direct, the Direct variants also with WithResend(true) (direct announcements republished on a topic that has no other subscriber); every call returns and no receiver goroutine is left. Sequences in which Go itself may legally choose between two answers (Next after Close with a queued announcement, two Direct calls blocked at once) are skipped in (H) and accepted either way in (S)",
 		"instrumented select statements try their cases in source order (a legal restriction of Go's choice)",
 	)
@@ -815,6 +832,26 @@ func TestCheck(t *testing.T) {
 		resendTopic, seqKeyPrefix = true, "resend-topic|seq|"
 		rec(nil)
 		resendTopic, seqKeyPrefix = false, "seq|"
+	}
+	// and at full depth with address filtering on and direct announcements
+	// that carry nothing but addresses the filter removes
+	if !r.Replaying() || strings.HasPrefix(r.ReplayKey(), "filter-ips|seq|") {
+		hdepth := depth
+		var rec func(seq []op)
+		rec = func(seq []op) {
+			if len(seq) > 0 {
+				runSequence(t, r, seq)
+			}
+			if len(seq) == hdepth {
+				return
+			}
+			for o := op(0); o < nOps; o++ {
+				rec(append(seq[:len(seq):len(seq)], o))
+			}
+		}
+		filterIPs, seqKeyPrefix = true, "filter-ips|seq|"
+		rec(nil)
+		filterIPs, seqKeyPrefix = false, "seq|"
 	}
 
 	// (S)
